@@ -126,10 +126,10 @@ theorem bw_dynCall {tr m : String} {ty : Ty} {recv : Expr} {args : List Expr} (h
     (fun n _ _ _ h => (dyn_tgt (decImm_c_atom recv n) (decList_cs_atoms args _)).1 h)
 
 theorem bw_bin_plain {op : BinOp} {ty : Ty} {l r : Expr}
-    (hc : ((op == .and || op == .or) && !isAtom r) = false) (hL : BWL P [l, r]) : BW P (.bin op ty l r) := by
+    (hc : ((op == .and || op == .or) && !trivialRhs r) = false) (hL : BWL P [l, r]) : BW P (.bin op ty l r) := by
   have hcase : isAtom r = true ∨ (op ≠ .and ∧ op ≠ .or) := by
     cases hr : isAtom r
-    · right; rw [hr] at hc
+    · right; rw [trivialRhs_eq_isAtom, hr] at hc
       cases op <;> first | exact ⟨by decide, by decide⟩ | (exfalso; revert hc; decide)
     · left; rfl
   refine bw_ops P (mk := fun cs => match cs with | [li, ri] => .bin op ty li ri | _ => .prim .unit)
@@ -273,7 +273,7 @@ theorem bw_while {c b : Expr} (hc : BW P c) (hb : BW P b) : BW P (.while c b) :=
 
 /-- `a && b` / `a || b` with a complex right operand: lowered to `if` -/
 theorem bw_bin_lowered {op : BinOp} {ty : Ty} {l r : Expr}
-    (hc : ((op == .and || op == .or) && !isAtom r) = true) (hl : BW P l) (hr : BW P r) :
+    (hc : ((op == .and || op == .or) && !trivialRhs r) = true) (hl : BW P l) (hr : BW P r) :
     BW P (.bin op ty l r) := by
   intro n N D ρ ρ' w x hy ha hev
   have hf := hy.frag
@@ -523,7 +523,7 @@ theorem bw : ∀ (e : Expr), BW P e
   | .cget c idx ty e => bw_cget P (bw e)
   | .un op ty e => bw_un P (bw e)
   | .bin op ty l r => by
-    cases hc : ((op == .and || op == .or) && !isAtom r)
+    cases hc : ((op == .and || op == .or) && !trivialRhs r)
     · exact bw_bin_plain P hc (bwL_cons P (bw_imm P (bw l)) (bwL_cons P (bw_imm P (bw r)) (bwL_nil P)))
     · exact bw_bin_lowered P hc (bw l) (bw r)
   | .call ty f args => bw_call P (bwL_cons P (bw_imm P (bw f)) (bwL args))
